@@ -163,8 +163,10 @@ func checkC13(c *Ctx) {
 	names := []string{"a.soy", "b.soy", "c.soy"}
 	perms := [][]int{{0, 1, 2}, {0, 2, 1}, {1, 0, 2}, {1, 2, 0}, {2, 0, 1}, {2, 1, 0}}
 	bound0, boundN := 2, 1
+	capExecs := int64(50000)
 	if c.Thorough() {
-		bound0, boundN = 3, 2
+		bound0, boundN = 3, 1
+		capExecs = 20000
 	}
 	for i := 0; i < len(snips); i++ {
 		for j := i; j < len(snips); j++ {
@@ -212,12 +214,12 @@ func checkC13(c *Ctx) {
 						if pi == 0 {
 							b = bound0
 						}
-						st := explore(vrt.Options{Fuel: 20000000, MapChoice: true, FixedSched: true}, b, 50000, func() { got = c13Run(files, order) },
+						st := explore(vrt.Options{Fuel: 20000000, MapChoice: true, FixedSched: true}, b, capExecs, func() { got = c13Run(files, order) },
 							func(v vrt.Verdict, prefix []int) { check(v, prefix, got) })
 						c.Count("map_orders_explored", st.Execs)
 						c.Max("max_map_choice_points", int64(st.MaxPoints))
 						if st.Capped {
-							c.Cap("map-order exploration capped at 50000 for " + key)
+							c.Cap(fmt.Sprintf("map-order exploration of %s capped (%d executions or the deadline)", key, capExecs))
 						}
 					} else {
 						for rep := 0; rep < 6; rep++ {
